@@ -1,7 +1,180 @@
-import KDVerif.Model.Interleaved
+/-
+C06 — Resuming the interleaved scheduler yields the suffix of the uninterrupted run.
+-/
+import KDVerif.Props.C04
+import KDVerif.Lemmas.InterleavedResume
+
 namespace KDVerif.C06
 open KDVerif.Interleaved
 
-theorem placeholder : True := trivial
+/-- the checkpoint the constructor derives from `start_epoch = e` carries the counters an
+    uninterrupted run has at that epoch boundary: `e` epochs, `e · updates_per_epoch` updates,
+    `e · samples_per_epoch` samples — with the *loop's* samples/updates per epoch
+    (also for `drop_last=False` and `drop_last_batch_size`) -/
+theorem ctor_epoch_checkpoint (a : Args) (e : Nat) (st : Start) (h : ctor a (.epoch e) = .ok st) :
+    st = ⟨e, upe a * e, spe a * e⟩ := by
+  have := (C04.ctor_ok a _ st h).2.2
+  simp only [startOf, Except.ok.injEq] at this
+  exact this.symm
+
+theorem upe_mul_B_of_dvd (a : Args) (hB : 0 < a.B) (hd : spe a % a.B = 0) : upe a * a.B = spe a := by
+  unfold upe
+  have hq : spe a = a.B * (spe a / a.B) := by
+    have := Nat.div_add_mod (spe a) a.B
+    omega
+  have h1 : (spe a + a.B - 1) / a.B = spe a / a.B := by
+    have h2 : spe a + a.B - 1 = (a.B - 1) + a.B * (spe a / a.B) := by omega
+    rw [h2, Nat.add_mul_div_left _ _ hB, Nat.div_eq_of_lt (by omega)]
+    omega
+  rw [h1, Nat.mul_comm]
+  exact hq.symm
+
+theorem spe_mod_B_of_dropLast (a : Args) (sa : StartArg) (st : Start) (h : ctor a sa = .ok st)
+    (hdl : a.dropLast = true) : spe a % a.B = 0 := by
+  have hg := (C04.ctor_ok a sa st h).1
+  unfold spe
+  rw [hdl]
+  simp only [if_true]
+  cases hds : a.dropLastBS with
+  | none => exact Nat.mul_mod_left _ _
+  | some d =>
+    simp only
+    unfold geomOk at hg
+    rw [hds] at hg
+    simp only [Bool.and_eq_true, bne_iff_ne, ne_eq, decide_eq_true_eq, beq_iff_eq] at hg
+    rw [Nat.mul_mod, hg.2.1.1.2]; simp
+
+/-- a checkpoint given as `start_update` is either rejected (`NotImplementedError`) or is the
+    epoch-boundary checkpoint of some epoch -/
+theorem ctor_update_is_epoch (a : Args) (u : Nat) (st : Start) (h : ctor a (.update u) = .ok st) :
+    ctor a (.epoch (u / upe a)) = .ok st := by
+  obtain ⟨hg, hc, hs⟩ := C04.ctor_ok a _ st h
+  unfold ctor
+  simp only [hg, hc, Bool.and_self, if_true]
+  unfold startOf at hs ⊢
+  simp only at hs ⊢
+  by_cases hcnd : (u % upe a != 0 || !a.dropLast) = true
+  · simp [hcnd] at hs
+  · simp only [hcnd] at hs
+    simp only [Bool.or_eq_true, bne_iff_ne, ne_eq, Bool.not_eq_true', not_or, Decidable.not_not,
+      Bool.not_eq_false] at hcnd
+    have hu : u = upe a * (u / upe a) := by
+      have := Nat.div_add_mod u (upe a)
+      omega
+    simp only [Bool.false_eq_true, if_false, Except.ok.injEq] at hs ⊢
+    rw [← hs]
+    congr 1
+    · exact hu.symm
+    · exact Nat.mul_comm _ _
+
+/-- likewise for `start_sample` -/
+theorem ctor_sample_is_epoch (a : Args) (s : Nat) (st : Start) (h : ctor a (.sample s) = .ok st) :
+    ctor a (.epoch ((s / a.B) / upe a)) = .ok st := by
+  obtain ⟨hg, hc, hs⟩ := C04.ctor_ok a _ st h
+  obtain ⟨hBpos, _, _, _⟩ := C04.ctor_ok_geometry a _ st h
+  unfold ctor
+  simp only [hg, hc, Bool.and_self, if_true]
+  unfold startOf at hs ⊢
+  simp only at hs ⊢
+  by_cases hm : (s % a.B != 0) = true
+  · simp [hm] at hs
+  · simp only [hm] at hs
+    by_cases hcnd : ((s / a.B) % upe a != 0 || !a.dropLast) = true
+    · simp [hcnd] at hs
+    · simp only [hcnd] at hs
+      simp only [Bool.or_eq_true, bne_iff_ne, ne_eq, Bool.not_eq_true', not_or, Decidable.not_not,
+        Bool.not_eq_false] at hcnd hm
+      have hdvd := spe_mod_B_of_dropLast a _ st h hcnd.2
+      have hub := upe_mul_B_of_dvd a hBpos hdvd
+      have hu : s / a.B = upe a * ((s / a.B) / upe a) := by
+        have := Nat.div_add_mod (s / a.B) (upe a)
+        omega
+      have hs' : s = a.B * (s / a.B) := by
+        have := Nat.div_add_mod s a.B
+        omega
+      simp only [Bool.false_eq_true, if_false, Except.ok.injEq] at hs ⊢
+      rw [← hs]
+      congr 1
+      · exact hu.symm
+      · calc spe a * (s / a.B / upe a) = (upe a * a.B) * (s / a.B / upe a) := by rw [hub]
+          _ = a.B * (upe a * (s / a.B / upe a)) := by
+              rw [Nat.mul_comm (upe a) a.B, Nat.mul_assoc]
+          _ = a.B * (s / a.B) := by rw [← hu]
+          _ = s := hs'.symm
+
+/-- **Resume = suffix.**  For every geometry, budget and config set, every main/side oracle and every
+    checkpoint `start_epoch = e' ≥ 1` the constructor accepts and that lies strictly before the budget:
+    both the uninterrupted and the resumed loop end, and the resumed stream (including its first
+    `set_epoch e'`, all later epoch numbers, side passes and the stopping point) is a suffix of the
+    uninterrupted stream. (`start_update` / `start_sample` reduce to this by the two lemmas above.) -/
+theorem resume_is_suffix (a : Args) (e' : Nat) (s0 st' : Start)
+    (hctor0 : ctor a .none = .ok s0) (hctor : ctor a (.epoch e') = .ok st')
+    (main : Nat → List Nat) (hmain : ∀ e, (main e).length = a.N) (side : Nat → Nat → List Nat)
+    (hpos : 0 < e') (hbefore : beforeC a.budget st'.epoch st'.update st'.sample) :
+    ∃ evs evs' pre n0,
+      (∀ fuel, n0 < fuel → trainLoop a main side fuel (initSt s0) = some evs) ∧
+      (∀ fuel, n0 < fuel → trainLoop a main side fuel (initSt st') = some evs') ∧
+      evs = pre ++ evs' := by
+  have hst := ctor_epoch_checkpoint a e' st' hctor
+  obtain ⟨hB, _, hS, hSN⟩ := C04.ctor_ok_geometry a _ _ hctor
+  have hs0 : s0 = ⟨0, 0, 0⟩ := by
+    have := (C04.ctor_ok a _ s0 hctor0).2.2
+    simp only [startOf, Except.ok.injEq] at this
+    exact this.symm
+  subst hs0
+  rw [hst] at hbefore
+  simp only at hbefore
+  -- both runs end
+  have hb0 : before a.budget (l1Start main ⟨0, 0, 0⟩) := by
+    have := beforeC_mono a 0 e' (by omega) hbefore
+    simp only [Nat.mul_zero] at this
+    unfold before l1Start
+    unfold beforeC at this
+    cases hbud : a.budget <;> rw [hbud] at this <;> simpa using this
+  have hb' : before a.budget (l1Start main st') := by
+    rw [hst]
+    unfold before l1Start
+    unfold beforeC at hbefore
+    cases hbud : a.budget <;> rw [hbud] at hbefore <;> simpa using hbefore
+  obtain ⟨evs, hl0, ht0⟩ := C04.train_terminates_and_refines a .none ⟨0, 0, 0⟩ hctor0 main hmain side hb0
+  obtain ⟨evs', hl', ht'⟩ := C04.train_terminates_and_refines a (.epoch e') st' hctor main hmain side hb'
+  -- the uninterrupted run passes through the checkpoint's boundary state
+  have hpass := passes_boundary a main hB hS (e' - 1) 0 (by
+    have e : 0 + (e' - 1) + 1 = e' := by omega
+    rw [e]; exact hbefore)
+  have e : 0 + (e' - 1) + 1 = e' := by omega
+  rw [e] at hpass
+  have hb0eq : boundary a main 0 = l1Start main ⟨0, 0, 0⟩ := by simp [boundary, l1Start]
+  have hbeq : boundary a main e' = l1Start main st' := by rw [hst]; simp [boundary, l1Start]
+  rw [hb0eq, hbeq] at hpass
+  simp only [l1] at hl0 hl'
+  rcases hrec0 : l1Loop a main side (meas a (l1Start main ⟨0, 0, 0⟩)) (l1Start main ⟨0, 0, 0⟩) with _ | body0
+  · rw [hrec0] at hl0; simp at hl0
+  rcases hrec' : l1Loop a main side (meas a (l1Start main st')) (l1Start main st') with _ | body'
+  · rw [hrec'] at hl'; simp at hl'
+  rw [hrec0] at hl0
+  rw [hrec'] at hl'
+  simp only [Option.map_some, Option.some.injEq] at hl0 hl'
+  obtain ⟨pre, evs'', k, hsplit, hk⟩ := suffix_of_passes a main side hpass _ body0 hrec0
+  -- determinism in the fuel: the resumed run's stream is the same for every sufficient fuel
+  have hsame : evs'' = body' := by
+    have h1 := l1Loop_mono a main side k _ _ hk (meas a (l1Start main st'))
+    have h2 := l1Loop_mono a main side _ _ _ hrec' k
+    rw [Nat.add_comm] at h2
+    rw [h1] at h2
+    simpa using h2
+  refine ⟨evs, evs', Ev.setEpoch 0 :: pre, max (meas a (l1Start main ⟨0, 0, 0⟩)) (meas a (l1Start main st')), ?_, ?_, ?_⟩
+  · intro fuel hf; exact ht0 fuel (by omega)
+  · intro fuel hf; exact ht' fuel (by omega)
+  · rw [← hl0, ← hl', hsplit, hsame]
+    have : (l1Start main st').epoch = st'.epoch := rfl
+    simp [this]
+
+/-- non-vacuity: N=5, B=2, drop_last, epochs=3 accepts `start_epoch=1`, which lies before the budget -/
+example : ctor ⟨5, 5, 2, true, none, .epochs 3, []⟩ (.epoch 1) = .ok ⟨1, 2, 4⟩ ∧
+    beforeC (Budget.epochs 3) 1 2 4 := by
+  constructor
+  · rfl
+  · simp [beforeC]
 
 end KDVerif.C06
